@@ -120,7 +120,7 @@ def fill(claim, na):
         "C16",
         "proof",
         "Lean 4 theorem for every environment of the Combiner model (structural proof that only channels of a finite set are ever requested + kernel decision of that set against module/class tables read from the live code each run) + outcome-class correspondence on the configuration lattice + real runs",
-        "no_internal_error: for every nf, mass flags, weights, Q2, flavour, FONLL part, PTO<=3, PTO(evol)<=3 and TMC mode, building the structure function ends in 'ok' or an explicit rejection, never an internal lookup/attribute/import error; kinematics outside 0<x<=1, Q2>0 or below the grid are rejected for all rationals; every kind_flavor key is visited by the NaN sanitiser. The outcome class of the real code (Runner + Combiner + every kernel's RSL construction, no quadrature) is compared with the model on 4000 sampled cells per quick run / all ~125k cells in thorough; full runs check finiteness; all request paths (plain, TMC, cross section) are probed with illegal kinematics.",
+        "no_internal_error: for every nf, mass flags, weights, Q2, flavour, FONLL part, PTO<=3, PTO(evol)<=3 and TMC mode, building the structure function ends in 'ok' or an explicit rejection, never an internal lookup/attribute/import error; kinematics outside 0<x<=1, Q2>0 or below the grid are rejected for all rationals; every kind_flavor key is visited by the NaN sanitiser. The outcome class of the real code (Runner + Combiner + every kernel's RSL construction, no quadrature) is compared with the model on 4000 sampled cells per quick run / all ~205k cells in thorough; full runs check finiteness; all request paths (plain, TMC, cross section) are probed with illegal kinematics, incl. non-finite x and Q2 (defect F27), lists with repeated points, PTODIS below PTO, observables named by their kind alone and grids ending below 1.",
         TB + "Finiteness of the numbers is observed, not proved (massive N3LO grids give NaN, zeroed by the sanitiser: known finding F20 under C03).",
         "DESIGN.md 6/C16",
     )
